@@ -9,7 +9,9 @@ package models
 //@ func NewPointFromBytes
 //@   props C12 C15
 //@   loop 1 invariant iterating: p != nil && fresh(p) && 0 <= p.it.end && p.it.end <= len(p.fields) + 2 && len(p.fields) + 1 <= cap(p.fields)
+//@   loop 1 invariant own_key_buffer: arr(p.it.keybuf) == 0 || fresh(p.it.keybuf)
 //@   ensures nil_iff_err: (result1 == nil) == (result0 != nil)
+//@   modifies nothing
 
 // ---- C08.4: the shard hash is FNV-64a of the series key bytes and of nothing else ----
 
@@ -232,6 +234,8 @@ package models
 //@ func (*point).UnmarshalBinary
 //@   props C12 C15
 //@   ensures fields_have_spare_capacity: result == nil ==> len(p.fields) + 1 <= cap(p.fields)
+//@   ensures decodes: result == nil ==> layout(b, p.key, p.fields)
+//@   modifies p.key, p.fields, p.time
 
 // Next: positions stay ordered; scanFieldValue(fields, end+1) may start one past the end, which only a
 // slice with spare capacity survives.
@@ -240,6 +244,8 @@ package models
 //@   requires iterator_in_range: 0 <= p.it.end && p.it.end <= len(p.fields) + 2 && len(p.fields) + 1 <= cap(p.fields)
 //@   ensures iterator_in_range: 0 <= p.it.end && p.it.end <= len(p.fields) + 2
 //@   ensures fields_kept: len(p.fields) == old(len(p.fields)) && cap(p.fields) == old(cap(p.fields))
+//@   ensures key_buffer: arr(p.it.keybuf) == old(arr(p.it.keybuf)) || fresh(p.it.keybuf)
+//@   modifies p.it, p.it.keybuf[:]
 
 // StringValue is total: the iterator may stand on any bytes (Fields() of a point decoded from the wire).
 //@ func (*point).StringValue
@@ -256,3 +262,23 @@ package models
 //@   props C12
 //@   loop 1 invariant pos: 0 <= i && i <= len(in) && (cap(out) == 0 || fresh(out)) && len(out) <= i
 //@   modifies nothing
+
+// ---- C12: the binary form reproduces key and fields exactly ----
+//@ pure be32(s, i) = s[i]*16777216 + s[i+1]*65536 + s[i+2]*256 + s[i+3]
+// layout(b, key, fields): b = len32(key) ++ key ++ len32(fields) ++ fields ++ time
+//@ pure layout(b, key, fields) = len(b) >= 8 + len(key) + len(fields) && be32(b, 0) == len(key) && all(k, 0, len(key), b[4+k] == key[k]) && be32(b, 4+len(key)) == len(fields) && all(k, 0, len(fields), b[8+len(key)+k] == fields[k])
+
+//@ func (*point).MarshalBinary
+//@   props C12
+//@   requires sizes_fit_u32: len(p.key) < 4294967296 && len(p.fields) < 4294967296
+//@   ensures has_field: result1 == nil ==> len(p.fields) > 0
+//@   ensures enc_len: result1 == nil ==> len(result0) >= 8 + len(p.key) + len(p.fields)
+//@   ensures enc_key_len: result1 == nil ==> be32(result0, 0) == len(p.key)
+//@   ensures enc_key: result1 == nil ==> all(k, 0, len(p.key), result0[4+k] == p.key[k])
+//@   ensures enc_fields_len: result1 == nil ==> be32(result0, 4+len(p.key)) == len(p.fields)
+//@   ensures enc_fields: result1 == nil ==> all(k, 0, len(p.fields), result0[8+len(p.key)+k] == p.fields[k])
+//@   modifies nothing
+
+// Round trip: MarshalBinary produces layout(b, key, fields); UnmarshalBinary of any b yields layout(b, key', fields').
+// The layout determines key and fields, hence key' == key and fields' == fields byte for byte.
+//@ lemma binary_layout_is_functional C12 int: forall_bytes(b, forall_bytes(k1, forall_bytes(f1, forall_bytes(k2, forall_bytes(f2, layout(b, k1, f1) && layout(b, k2, f2) ==> len(k1) == len(k2) && len(f1) == len(f2) && all(k, 0, len(k1), k1[k] == k2[k]) && all(k, 0, len(f1), f1[k] == f2[k]))))))
